@@ -339,6 +339,8 @@ type roundOpts struct {
 	evict           int    // nodes forget a prepared statement after this many executions
 	bigEvery        int    // every n-th plain answer is about 20 KiB
 	burstsForwarded bool   // the bursts consist of forwarded queries only (48..127 per write)
+	slowReaders     int    // clients that pipeline thousands of queries and read late
+	nonReaders      int    // ... and never read but hang up
 	override        bool   // configure a write-consistency override that applies to every write of the workload
 	stallMs         int    // hold back the answer to one heartbeat per data connection for this long
 	holdMs          int    // hold back every scripted answer for this long (requests pile up on the connection)
@@ -631,6 +633,53 @@ func runRound(scs []*reqScenario, nodes, numConns, nclients, workers int, out st
 			}
 		}(k)
 	}
+	// slow consumers: a client pipelines a few thousand queries (with -bigevery 1 every answer is about 20 KiB) and does
+	// not read for a while: the answers pile up in the socket buffers and in the proxy's write queue for it.  A slow
+	// reader reads on in the end and must get every answer exactly once; a non-reader hangs up instead, and everybody
+	// else must keep being served.
+	var slowWg sync.WaitGroup
+	for k := 0; k < ro.slowReaders+ro.nonReaders; k++ {
+		slowWg.Add(1)
+		go func(k int) {
+			defer slowWg.Done()
+			sc, err := e.StartedClient(primitive.ProtocolVersion4, ro.compression)
+			if err != nil {
+				return
+			}
+			defer sc.Close()
+			non := k >= ro.slowReaders
+			const n = 2600
+			var frms []*frame.Frame
+			var toks, classes []string
+			for q := 0; q < n; q++ {
+				tok := rr.newToken()
+				frms = append(frms, frame.NewFrame(primitive.ProtocolVersion4, int16(1000+q), &message.Query{Query: fmt.Sprintf(idemStmts[0], tok),
+					Options: &message.QueryOptions{Consistency: primitive.ConsistencyLevelOne}}))
+				toks = append(toks, tok)
+				if non {
+					classes = append(classes, "idem|QUERY|churn")
+				} else {
+					classes = append(classes, "idem|QUERY|slow")
+				}
+			}
+			if non {
+				sc.PauseReads(time.Hour)
+			} else {
+				sc.PauseReads(1800 * time.Millisecond)
+			}
+			// several writes: the socket towards the proxy fills up too once the proxy stops reading
+			for i := 0; i < n; i += 200 {
+				if sc.SendMany(frms[i:i+200], toks[i:i+200], classes[i:i+200]) != nil {
+					return
+				}
+			}
+			if non {
+				time.Sleep(1500 * time.Millisecond)
+				return // hangs up with everything outstanding
+			}
+			sc.WaitCount(n, 20*time.Second)
+		}(k)
+	}
 	for w := 0; w < nclients*workers; w++ {
 		wg.Add(1)
 		go func(sl slot) {
@@ -662,6 +711,7 @@ func runRound(scs []*reqScenario, nodes, numConns, nclients, workers int, out st
 	churnWg.Wait()
 	close(stopBursts)
 	burstWg.Wait()
+	slowWg.Wait()
 	close(stopDrops)
 	// quiescence: nothing logged for the window
 	quiet := t.Quiesce(700*time.Millisecond, 8*time.Second)
@@ -725,6 +775,8 @@ func init() {
 		restarts := fs.Int("restarts", 0, "random node restarts per round (connections dropped, prepared statements forgotten)")
 		addNode := fs.Bool("addnode", false, "a node joins after the proxy connected")
 		lateAddNode := fs.Bool("lateaddnode", false, "a node joins after the clients' sessions were created")
+		slowReaders := fs.Int("slowreaders", 0, "clients that pipeline 2600 queries and start reading 1.8 s later")
+		nonReaders := fs.Int("nonreaders", 0, "clients that pipeline 2600 queries, never read and hang up after 1.5 s")
 		burstsForwarded := fs.Bool("burstsforwarded", false, "the bursts of -localbursts consist of forwarded queries only (48..127 per write)")
 		bigEvery := fs.Int("bigevery", 0, "every n-th plain OK answer carries about 20 KiB")
 		evict := fs.Int("evict", 0, "nodes forget a prepared statement after this many executions (frequent, concurrent re-preparations)")
@@ -797,7 +849,7 @@ func init() {
 				j = len(scs)
 			}
 			if err := runRound(scs[i:j], *nodes, *numConns, *nclients, *workers, *out, st, *dropRate, int64(k), *maxDelay,
-				roundOpts{compression: *compression, restarts: *restarts, addNode: *addNode, lateAddNode: *lateAddNode, evict: *evict, bigEvery: *bigEvery, burstsForwarded: *burstsForwarded, stallMs: *stallMs, holdMs: *holdMs, override: *override, noDrops: *noDrops, idleClose: *idleClose, preCompression: *preCompression, postCompression: *postCompression, churn: *churn, localBursts: *localBursts}); err != nil {
+				roundOpts{compression: *compression, restarts: *restarts, addNode: *addNode, lateAddNode: *lateAddNode, evict: *evict, bigEvery: *bigEvery, burstsForwarded: *burstsForwarded, slowReaders: *slowReaders, nonReaders: *nonReaders, stallMs: *stallMs, holdMs: *holdMs, override: *override, noDrops: *noDrops, idleClose: *idleClose, preCompression: *preCompression, postCompression: *postCompression, churn: *churn, localBursts: *localBursts}); err != nil {
 				return err
 			}
 		}
